@@ -452,3 +452,32 @@ pub(crate) fn into_locate(s: Span) -> Locate {
         len: s.fragment().len(),
     }
 }
+
+// -----------------------------------------------------------------------------
+
+/// Observation and configuration hooks for external verification harnesses.
+/// Compiled only with `--cfg sv_parser_verif`; absent from normal builds.
+#[cfg(sv_parser_verif)]
+pub mod verif {
+    use super::*;
+
+    /// Re-create the thread's packrat storage with the given capacity
+    /// (`None` = unbounded). The storage is empty afterwards.
+    pub fn set_memo_capacity(capacity: Option<usize>) {
+        crate::PACKRAT_STORAGE.with(|storage| {
+            *storage.borrow_mut() = nom_packrat::PackratStorage::new(capacity);
+        });
+    }
+
+    /// (directive nesting depth, keyword-version stack depth) of this thread.
+    pub fn state_depths() -> (usize, usize) {
+        let d = IN_DIRECTIVE.with(|x| x.borrow().len());
+        let v = CURRENT_VERSION.with(|x| x.borrow().len());
+        (d, v)
+    }
+
+    /// Name of the keyword version on top of this thread's stack, if any.
+    pub fn top_version() -> Option<String> {
+        current_version().map(|x| format!("{:?}", x))
+    }
+}
